@@ -245,6 +245,9 @@ def parts(ctx):
                top_ops=lambda o: o.name != "store", max_new=1, dom={INT: (0, 1, 2)}))
         A(dict(name="arr-%s-d1-partial" % nm, profile=(lambda i, e_: lambda e: P.arr_profile(e, i, e_))(i, e_),
                depth=1, shards=4, partial=True, dom={INT: (0, 1, 2)}))
+    # cross-theory terms (children of another theory below every operator)
+    A(dict(name="mixed-d2", profile=lambda e: P.mixed_profile(e, uf=False), depth=2, shards=32, max_new=1,
+           dom={INT: (-1, 0, 2), STRING: ("", "a", "12")}))
     return ps
 
 
